@@ -377,7 +377,7 @@ def main():
                         close_leaves(c)
             close_leaves(root)
             flags = [str(n.get('flag')) for br in tab for n in br if 'flag' in n and n.get('flag') != 'closure']
-            if job.get('models') and tab.invalid:
+            if (job.get('models') or job.get('export_open')) and tab.invalid:
                 res['open_branches'] = [export_branch(tab, br, arg) for br in tab.open]
             res.update(
                 ok=True, expressible=expressible, why=why,
@@ -394,6 +394,13 @@ def main():
                 res.update(ok=True, timeout=True, expressible=False, why=['timeout'], valid=None, invalid=None,
                            rules=[], steps=0, branches=0, flags=[], premature=True, finished=True, argstr='')
                 return res
+            if type(e).__name__ == 'ModelValueError' and job.get('models') and not job.get('_retry'):
+                # the model builder refused an open branch (conflicting values): export the branches without models
+                # so that the driver can say which rule instance the branch is missing
+                r2 = run(dict(job, models=False, _retry=True, export_open=True))
+                r2['model_error'] = f'{type(e).__name__}: {e}'
+                r2['model_tb'] = traceback.format_exc()[-1200:]
+                return r2
             res.update(ok=False, error=f'{type(e).__name__}: {e}', tb=traceback.format_exc()[-1200:])
         return res
 
